@@ -91,7 +91,7 @@ seq_t dtw_distance(seq_t *s1, idx_t l1,
     idx_t dl;
     // DTWPruned
     idx_t sc = 0;
-    idx_t ec = 0;
+    idx_t ec = settings->psi_2b;  // PrunedDTW: a path can still start in the relaxed part of the first row
     bool smaller_found;
     idx_t ec_next;
     // signal(SIGINT, dtw_int_handler); // not compatible with OMP
@@ -200,6 +200,10 @@ seq_t dtw_distance(seq_t *s1, idx_t l1,
         // }
         skip = skip * (length != l2 + 1);
         // PrunedDTW
+        if (i <= settings->psi_1b) {
+            // PrunedDTW: a path can still start in the relaxed part of the first column
+            sc = 0;
+        }
         if (sc > maxj) {
             #ifdef DTWDEBUG
             printf("correct maxj to sc: %zu -> %zu (saved %zu computations)\n", maxj, sc, sc-maxj);
@@ -329,7 +333,7 @@ seq_t dtw_distance_ndim(seq_t *s1, idx_t l1,
     idx_t dl;
     // DTWPruned
     idx_t sc = 0;
-    idx_t ec = 0;
+    idx_t ec = settings->psi_2b;  // PrunedDTW: a path can still start in the relaxed part of the first row
     bool smaller_found;
     idx_t ec_next;
     // signal(SIGINT, dtw_int_handler); // not compatible with OMP
@@ -441,6 +445,10 @@ seq_t dtw_distance_ndim(seq_t *s1, idx_t l1,
         // }
         skip = skip * (length != l2 + 1);
         // PrunedDTW
+        if (i <= settings->psi_1b) {
+            // PrunedDTW: a path can still start in the relaxed part of the first column
+            sc = 0;
+        }
         if (sc > maxj) {
             #ifdef DTWDEBUG
             printf("correct maxj to sc: %zu -> %zu (saved %zu computations)\n", maxj, sc, sc-maxj);
@@ -570,7 +578,7 @@ seq_t dtw_distance_euclidean(seq_t *s1, idx_t l1,
     idx_t dl;
     // DTWPruned
     idx_t sc = 0;
-    idx_t ec = 0;
+    idx_t ec = settings->psi_2b;  // PrunedDTW: a path can still start in the relaxed part of the first row
     bool smaller_found;
     idx_t ec_next;
     // signal(SIGINT, dtw_int_handler); // not compatible with OMP
@@ -673,6 +681,10 @@ seq_t dtw_distance_euclidean(seq_t *s1, idx_t l1,
         // }
         skip = skip * (length != l2 + 1);
         // PrunedDTW
+        if (i <= settings->psi_1b) {
+            // PrunedDTW: a path can still start in the relaxed part of the first column
+            sc = 0;
+        }
         if (sc > maxj) {
             #ifdef DTWDEBUG
             printf("correct maxj to sc: %zu -> %zu (saved %zu computations)\n", maxj, sc, sc-maxj);
@@ -799,7 +811,7 @@ seq_t dtw_distance_ndim_euclidean(seq_t *s1, idx_t l1,
     idx_t dl;
     // DTWPruned
     idx_t sc = 0;
-    idx_t ec = 0;
+    idx_t ec = settings->psi_2b;  // PrunedDTW: a path can still start in the relaxed part of the first row
     bool smaller_found;
     idx_t ec_next;
     // signal(SIGINT, dtw_int_handler); // not compatible with OMP
@@ -905,6 +917,10 @@ seq_t dtw_distance_ndim_euclidean(seq_t *s1, idx_t l1,
         // }
         skip = skip * (length != l2 + 1);
         // PrunedDTW
+        if (i <= settings->psi_1b) {
+            // PrunedDTW: a path can still start in the relaxed part of the first column
+            sc = 0;
+        }
         if (sc > maxj) {
             #ifdef DTWDEBUG
             printf("correct maxj to sc: %zu -> %zu (saved %zu computations)\n", maxj, sc, sc-maxj);
@@ -1060,7 +1076,7 @@ seq_t dtw_warping_paths_ndim(seq_t *wps,
     }
     // DTWPruned
     idx_t sc = 0;
-    idx_t ec = 0;
+    idx_t ec = settings->psi_2b;  // PrunedDTW: a path can still start in the relaxed part of the first row
     idx_t ec_next;
     bool smaller_found;
 
@@ -1125,6 +1141,10 @@ seq_t dtw_warping_paths_ndim(seq_t *wps,
         ci = min_ci;
         wpsi = 1; // index for min_ci
         // PrunedDTW
+        if (ri <= settings->psi_1b) {
+            // A path can still start in the relaxed part of the first column
+            sc = 0;
+        }
         if (sc <= min_ci) {} else {
             for (; ci<sc; ci++) {
                 wps[ri_width + wpsi] = INFINITY;
@@ -1177,6 +1197,10 @@ seq_t dtw_warping_paths_ndim(seq_t *wps,
         wpsi = 1;
         ci = min_ci;
         // PrunedDTW
+        if (ri <= settings->psi_1b) {
+            // A path can still start in the relaxed part of the first column
+            sc = 0;
+        }
         if (sc <= min_ci) {} else {
             for (; ci<sc; ci++) {
                 wps[ri_width + wpsi] = INFINITY;
@@ -1229,6 +1253,10 @@ seq_t dtw_warping_paths_ndim(seq_t *wps,
         wps[ri_width] = INFINITY;
         wpsi = 1;
         // PrunedDTW
+        if (ri <= settings->psi_1b) {
+            // A path can still start in the relaxed part of the first column
+            sc = 0;
+        }
         if (sc <= min_ci) {} else {
             for (; ci<sc; ci++) {
                 wps[ri_width + wpsi] = INFINITY;
@@ -1291,6 +1319,10 @@ seq_t dtw_warping_paths_ndim(seq_t *wps,
             wps[i] = INFINITY;
         }
         // PrunedDTW
+        if (ri <= settings->psi_1b) {
+            // A path can still start in the relaxed part of the first column
+            sc = 0;
+        }
         if (sc <= min_ci) {} else {
             for (; ci<sc; ci++) {
                 wps[ri_width + wpsi] = INFINITY;
@@ -1448,7 +1480,7 @@ seq_t dtw_warping_paths_ndim_euclidean(seq_t *wps,
                         DTWSettings *settings) {
     // DTWPruned
     idx_t sc = 0;
-    idx_t ec = 0;
+    idx_t ec = settings->psi_2b;  // PrunedDTW: a path can still start in the relaxed part of the first row
     idx_t ec_next;
     bool smaller_found;
 
@@ -1508,6 +1540,10 @@ seq_t dtw_warping_paths_ndim_euclidean(seq_t *wps,
         ci = min_ci;
         wpsi = 1; // index for min_ci
         // PrunedDTW
+        if (ri <= settings->psi_1b) {
+            // A path can still start in the relaxed part of the first column
+            sc = 0;
+        }
         if (sc <= min_ci) {} else {
             for (; ci<sc; ci++) {
                 wps[ri_width + wpsi] = INFINITY;
@@ -1561,6 +1597,10 @@ seq_t dtw_warping_paths_ndim_euclidean(seq_t *wps,
         wpsi = 1;
         ci = min_ci;
         // PrunedDTW
+        if (ri <= settings->psi_1b) {
+            // A path can still start in the relaxed part of the first column
+            sc = 0;
+        }
         if (sc <= min_ci) {} else {
             for (; ci<sc; ci++) {
                 wps[ri_width + wpsi] = INFINITY;
@@ -1614,6 +1654,10 @@ seq_t dtw_warping_paths_ndim_euclidean(seq_t *wps,
         wps[ri_width] = INFINITY;
         wpsi = 1;
         // PrunedDTW
+        if (ri <= settings->psi_1b) {
+            // A path can still start in the relaxed part of the first column
+            sc = 0;
+        }
         if (sc <= min_ci) {} else {
             for (; ci<sc; ci++) {
                 wps[ri_width + wpsi] = INFINITY;
@@ -1677,6 +1721,10 @@ seq_t dtw_warping_paths_ndim_euclidean(seq_t *wps,
             wps[i] = INFINITY;
         }
         // PrunedDTW
+        if (ri <= settings->psi_1b) {
+            // A path can still start in the relaxed part of the first column
+            sc = 0;
+        }
         if (sc <= min_ci) {} else {
             for (; ci<sc; ci++) {
                 wps[ri_width + wpsi] = INFINITY;
